@@ -112,9 +112,14 @@ def run_campaign(prop, tier, v, wd, rng, fams=None, sample=None):
                 devs, taps = to_devs(sc)
                 # a dropped / forged optional value only shows when the hidden bit is 1: repeat
                 reps = 4 if any(d.get("m") in ("ToNone", "ToNoneAny", "ToNoneAll", "ToSomeAny", "Clear") for d in devs) else 1
+                # a rushing party sends last: the scheduler starves it
+                rushing = str(sc.get("what", "")).startswith("mirrored")
+                if rushing:
+                    reps = 4
                 for k in range(reps):
-                    jobs.append(ej.job(f"{name}.{fam}.{i}.{k}", circ, ej.rand_inputs(rng, circ), pe, po, cap=1,
-                                       pol=ej.policy(rng, n), events=False, devs=devs, taps=taps,
+                    pol = {"kind": "Starve", "victim": c, "seed": rng.randrange(1 << 30)} if rushing else ej.policy(rng, n)
+                    jobs.append(ej.job(f"{name}.{fam}.{i}.{k}", circ, ej.rand_inputs(rng, circ), pe, po, cap=0 if rushing else 1,
+                                       pol=pol, events=False, devs=devs, taps=taps,
                                        tag=dict(sc, cfgname=name)))
     # the recorded runs of the defects repaired so far
     for j in vlib.regression_jobs(prop, "engine-job"):
